@@ -99,3 +99,154 @@ def r_import_c17(repo, tier):
     if len(cpus) < 25:
         raise AnalysisError("R-IMPORT: %d cpu modules (25 confirmed)" % len(cpus))
     return out
+
+
+def r_arity_c17(repo, tier):
+    """definite TypeError at a call site: wrong number / names of arguments for a by-name-resolved amoco callable"""
+    import ast
+    from ..harness import RuleOut
+    from ..callgraph import CallGraph
+    from ..scopes import local_bindings
+    from ..index import norm
+
+    out = RuleOut(
+        "R-ARITY",
+        "a call in a reachable function whose callee resolves by name to exactly one amoco function or class (no local "
+        "rebinding, single module-level binding, no decorator that may change the signature, fully resolved base classes for "
+        "constructors) passes a number and set of arguments that the signature accepts; otherwise the call is a TypeError "
+        "whenever it executes",
+    )
+    fs, info = reach(repo)
+    cg = CallGraph(repo)
+    n = 0
+    for f in fs.values():
+        loc = local_bindings(f.node)
+        for c in ast.walk(f.node):
+            if not isinstance(c, ast.Call):
+                continue
+            e = N.call_arity_error(repo, cg, f.mod, c, localnames=loc)
+            n += 1
+            if e:
+                out.inst("%s::%s" % (f.key, norm(c)[:60]), {"site": "%s:%d" % (f.file, c.lineno), "call": norm(c)[:80], "error": e})
+                out.report(f.file, f.dqual, norm(c)[:100], c.lineno, "TypeError when line %d executes: %s" % (c.lineno, e))
+    # (b) `raise Cls` (no call) instantiates Cls without arguments
+    for f in fs.values():
+        loc = local_bindings(f.node)
+        for r in ast.walk(f.node):
+            if isinstance(r, ast.Raise) and isinstance(r.exc, ast.Name) and r.exc.id not in loc:
+                fake = ast.Call(func=r.exc, args=[], keywords=[])
+                ast.copy_location(fake, r)
+                e = N.call_arity_error(repo, cg, f.mod, fake, localnames=loc)
+                n += 1
+                if e:
+                    out.inst("%s::raise %s" % (f.key, r.exc.id), {"site": "%s:%d" % (f.file, r.lineno), "raise": norm(r), "error": e})
+                    out.report(f.file, f.dqual, norm(r), r.lineno, "`raise %s` instantiates the class without arguments: TypeError (%s) instead of the intended exception" % (r.exc.id, e))
+    # (c) the mapper parameter of semantics functions: icore.__call__ calls i_xxx(self, fmap) with a mapper, whose
+    #     __call__(self, x) takes exactly one expression
+    mp = repo.mod("amoco/cas/mapper.py").classes.get("mapper")
+    mcall = mp.methods.get("__call__") if mp else None
+    if mcall is not None:
+        npos = len(mcall.node.args.args) - 1
+        for f in fs.values():
+            if not f.name.startswith("i_") or f.cls is not None or len(f.params()) < 2:
+                continue
+            fm = f.params()[1]
+            rebound = any(isinstance(a, ast.Name) and a.id == fm and isinstance(a.ctx, ast.Store) for a in ast.walk(f.node))
+            if rebound:
+                continue
+            for c in ast.walk(f.node):
+                if isinstance(c, ast.Call) and isinstance(c.func, ast.Name) and c.func.id == fm:
+                    n += 1
+                    if len(c.args) > npos and not any(isinstance(a, ast.Starred) for a in c.args):
+                        out.inst("%s::%s" % (f.key, norm(c)[:60]), {"site": "%s:%d" % (f.file, c.lineno), "call": norm(c)[:80]})
+                        out.report(f.file, f.dqual, norm(c)[:100], c.lineno, "the semantics function calls its mapper argument with %d arguments; mapper.__call__ takes %d (TypeError when line %d executes)" % (len(c.args), npos, c.lineno))
+    out.instances = max(out.instances, 1)
+    out.stats["calls_examined"] = n
+    out.nontrivial.add("calls")
+    if n < 10000:
+        raise AnalysisError("R-ARITY: only %d calls examined" % n)
+    return out
+
+
+def r_unbound_c17(repo, tier):
+    """definitely-unbound locals: every definition reaching the use is 'none' (UnboundLocalError on every execution)"""
+    import ast
+    from ..harness import RuleOut
+    from ..cfg import CFG, reaching_defs, _walk_no_nested
+    from ..scopes import local_bindings
+    from ..index import norm
+
+    out = RuleOut(
+        "R-UNBOUND",
+        "a local variable of a reachable function is never read at a point that no assignment of it can reach "
+        "(reaching definitions on the statement CFG: the only 'definition' reaching the read is function entry) -- such a read "
+        "raises UnboundLocalError whenever it executes; reads that some assignment may reach are not reported",
+    )
+    fs, info = reach(repo)
+    nfun = 0
+    for f in fs.values():
+        fn = f.node
+        params = set(f.params()) | ({fn.args.vararg.arg} if fn.args.vararg else set()) | ({fn.args.kwarg.arg} if fn.args.kwarg else set())
+        stores = {}
+        loads = {}
+        gl = set()
+        def walk_scope(node):
+            # own scope only: comprehensions and lambdas are scopes of their own in Python 3
+            todo = [node]
+            while todo:
+                x = todo.pop()
+                yield x
+                for ch in ast.iter_child_nodes(x):
+                    if isinstance(ch, (ast.FunctionDef, ast.AsyncFunctionDef, ast.Lambda, ast.ClassDef, ast.ListComp, ast.SetComp, ast.DictComp, ast.GeneratorExp)):
+                        continue
+                    todo.append(ch)
+
+        for n in walk_scope(fn):
+            if isinstance(n, ast.Name):
+                if isinstance(n.ctx, ast.Store):
+                    stores.setdefault(n.id, []).append(n)
+                elif isinstance(n.ctx, ast.Load):
+                    loads.setdefault(n.id, []).append(n)
+            elif isinstance(n, (ast.Global, ast.Nonlocal)):
+                gl.update(n.names)
+        cands = []
+        for v, st in stores.items():
+            if v in params or v in gl or v not in loads:
+                continue
+            first_store = min((s.lineno, s.col_offset) for s in st)
+            early = [l for l in loads[v] if (l.lineno, l.col_offset) < first_store]
+            if early:
+                cands.append(v)
+        nfun += 1
+        if not cands:
+            continue
+        # nested function / comprehension bindings make the simple model unsafe: skip functions defining inner scopes that bind the name
+        cfg = CFG(fn, may_raise=lambda x: False)
+        for v in cands:
+            if any(isinstance(n, (ast.Import, ast.ImportFrom)) and any((a.asname or a.name).split(".")[0] == v for a in n.names) for n in ast.walk(fn)):
+                continue
+            if any(isinstance(n, (ast.For, ast.comprehension)) and any(isinstance(t, ast.Name) and t.id == v for t in ast.walk(n.target)) for n in ast.walk(fn)) and False:
+                continue
+            rd = reaching_defs(cfg, v)
+            for nd in cfg.nodes:
+                if nd.ast is None or nd.id not in rd:
+                    continue
+                tgt = nd.ast.test if nd.kind == "test" else (nd.ast.iter if nd.kind == "for" else nd.ast)
+                uses = [x for x in walk_scope(tgt) if isinstance(x, ast.Name) and x.id == v and isinstance(x.ctx, ast.Load)]
+                if not uses:
+                    continue
+                # AugAssign target counts as a read too
+                if rd[nd.id] == frozenset([cfg.entry.id]):
+                    # the statement itself may bind v before reading it only in `for v in ...` (handled: target not a load)
+                    out.inst("%s::%s" % (f.key, v), {"site": "%s:%d" % (f.file, nd.line), "variable": v, "statement": norm(nd.ast)[:80]})
+                    out.report(f.file, f.dqual, "unbound %s" % v, nd.line, "local variable %r is read at line %d but no assignment of it can reach that point (it is assigned only later / on other branches): UnboundLocalError whenever the line executes" % (v, nd.line))
+                    break
+    out.instances = max(out.instances, nfun)
+    out.nontrivial.add("functions")
+    out.stats["functions"] = nfun
+    return out
+
+
+def r_dupkey_c17(repo, tier):
+    mods = [m.name for m in repo.modules.values() if m.name.startswith("amoco.arch.") or m.name in ("amoco.cas.expressions", "amoco.cas.mapper")]
+    return N.r_dupkey(repo, mods)
